@@ -68,15 +68,29 @@ def main():
             # the unchanged tree
             evp = os.path.join(ROOT, 'evidence', f'{prop}.json')
             keep = open(evp).read() if os.path.exists(evp) else None
-            env2 = dict(os.environ, VERIF_REPO=wt)
-            rc, o, t = sh([os.path.join(ROOT, 'check'), prop, '--tier', tier],
-                          cwd=ROOT, env=env2, timeout=7200)
-            lines = [ln for ln in o.splitlines()
-                     if ln.startswith(('VIOLATION', 'INCONCLUSIVE', 'KNOWN', '  w'))]
-            out['check'] = {'rc': rc, 'wall': round(t, 1), 'tier': tier,
-                            'n_violation_lines': sum(
-                                ln.startswith('VIOLATION') for ln in lines),
-                            'lines': lines[:6]}
+            seeds = ['0']
+            if '--seeds' in sys.argv:
+                seeds = sys.argv[sys.argv.index('--seeds') + 1].split(',')
+            per_seed = {}
+            for sd in seeds:
+                env2 = dict(os.environ, VERIF_REPO=wt, VERIF_SEED=sd)
+                rc, o, t = sh([os.path.join(ROOT, 'check'), prop, '--tier',
+                               tier], cwd=ROOT, env=env2, timeout=7200)
+                lines = [ln for ln in o.splitlines()
+                         if ln.startswith(('VIOLATION', 'INCONCLUSIVE', 'KNOWN',
+                                           '  w'))]
+                per_seed[sd] = {'rc': rc, 'wall': round(t, 1),
+                                'n_violation_lines': sum(
+                                    ln.startswith('VIOLATION') for ln in lines),
+                                'lines': lines[:6]}
+            first = per_seed[seeds[0]]
+            out['check'] = {'rc': 1 if all(v['rc'] == 1 for v in
+                                           per_seed.values()) else
+                            first['rc'] if len(seeds) == 1 else 0,
+                            'wall': first['wall'], 'tier': tier,
+                            'n_violation_lines': first['n_violation_lines'],
+                            'lines': first['lines'],
+                            'seeds': {sd: v['rc'] for sd, v in per_seed.items()}}
             if keep is not None:
                 open(evp, 'w').write(keep)
         pj = os.path.join(src, 'pytest.json')
